@@ -416,6 +416,10 @@ def tensor_method(cb: Any, e: ast.Call, x: TV, m: str, args: list, s: St, quiet:
         return SV(x.unit, 'item', 'num'), s
     if m == 'diagonal':
         return replace(x, axes=(x.axes[0],)), s
+    if m == 'unbind' and x.axes and x.axes[0] == ('parts', 'mp'):
+        dv = args[0] if args else SV((), '0', 'num')
+        if dim_of(dv, len(x.axes)) == 0:
+            return ListV((replace(x, axes=tuple(x.axes[1:]), quals=frozenset()),), star=True), s
     if m == 'wait':
         return x, s
     if m in ('dim', 'ndimension'):
@@ -439,6 +443,26 @@ def view(cb: Any, e: ast.Call, x: TV, args: list, s: St) -> tuple[Any, St]:
     dims = args
     if len(dims) == 1 and isinstance(dims[0], ListV):
         dims = list(dims[0].items)
+    if len(dims) == 2 and isinstance(dims[0], SV) and dims[0].kind == 'mp' and isinstance(dims[1], ShapeV) and len(dims[1].axes) == len(x.axes):
+        # x.view(P, *chunk): row-major storage cut into P consecutive blocks.  The blocks are the chunks of a split
+        # along axis d only when d is the leading axis (every axis before it has extent one).
+        chunk = dims[1].axes
+        diff = [i for i, (a, c) in enumerate(zip(x.axes, chunk)) if a != c]
+        single = getattr(it, 'single_partition', False)
+
+        def sharded(a: Any, c: Any) -> bool:
+            return c == ('shard', a) or (isinstance(a, tuple) and a and a[0] in ('gathered', 'times-mp') and c == a[1])
+        if single and not diff:
+            return replace(x, axes=('ONE',) + tuple(chunk), quals=frozenset(), src=''), s
+        if len(diff) != 1 or not sharded(x.axes[diff[0]], chunk[diff[0]]):
+            it.err(f, e, f'{norm(e)[:60]}: views {x} as mp blocks of {axes_str(tuple(chunk))}: the block shape is not {x} with one axis divided by the partition count')
+            return replace(x, axes=('?',), quals=frozenset(), src=''), s
+        d = diff[0]
+        if any(a != 'ONE' for a in x.axes[:d]):
+            it.err(f, e, f'{norm(e)[:60]}: views {x} as mp consecutive blocks of shape {axes_str(tuple(chunk))}: consecutive blocks of row-major storage are a split along the '
+                         f'leading axis, but the block shape divides axis {d}; the blocks are not the chunks of a split along that axis')
+        it.events.append(('split', f, e, (d - len(x.axes), x.axes[d])))
+        return replace(x, axes=(('parts', 'mp'),) + tuple(chunk), quals=frozenset(), src=''), s
     out: list = []
     used: list = []
     hole = None
